@@ -187,6 +187,7 @@ def run(ctx):
             fresh_cache = {}
             hist = history(rng, fi, length)
             done = []
+            held = None
             try:
                 for step, op in enumerate(hist):
                     who = int(rng.integers(len(readers) + 1))
@@ -222,6 +223,12 @@ def run(ctx):
                     ctx.stats['ops'] += 1
                     ctx.stats['via_' + ('emulator' if via == 'emulator' else 'reader')] += 1
                     c = canon(got)
+                    # the result of the previous call is still held by its caller: reading again must not change it
+                    if held is not None and canon(held[0]) != held[1]:
+                        ctx.fail(f'the array returned by {held[2]} changed when {via}.{op} was read afterwards (a result aliases '
+                                 f'memory that a later read rewrites)', {'file': desc, 'history': done[-4:]})
+                        break
+                    held = (got, c, f'{via}.{op}')
                     if c != fresh_cache[key]:
                         ctx.fail(f'{via}.{op} after {step} earlier operations returned {c[0]}:{str(c[1])[:60] if c[0] != "ok" else "array"} '
                                  f'but a fresh reader returns {fresh_cache[key][0]}:{str(fresh_cache[key][1])[:60] if fresh_cache[key][0] != "ok" else "array"}',
